@@ -273,8 +273,8 @@ def run(ctx: Context) -> None:
             lp = rv.params[2] if len(rv.params) > 2 else 'linear_dimension'
             ok_lin = c == ('param', lp) or (c[0] == 'phi' and ('param', lp) in c)
             fresh = [x for x in calls_in(rv) if callee(ctx, rv, x) == f"{UTILS}.find_unused_dimension"]
-            guarded = all(any(inb and isinstance(st.test, ast.Compare) and isinstance(st.test.ops[0], ast.Is)
-                              and is_none(st.test.comparators[0]) for st, inb in enclosing_ifs(rv, x)) for x in fresh)
+            from .common import facts as _facts03
+            guarded = all((f"{lp} is None", True) in _facts03(ctx, rv, x, expand=False) for x in fresh)
             ctx.check('R03.6', ok_lin and len(fresh) >= 1 and guarded,
                       "the linear dimension is the caller's name, or find_unused_dimension(...) only when none was given", rv, item,
                       construct=f"linear dimension = {norm_text(lin_expr)}")
